@@ -67,7 +67,7 @@ def handle_trie_validation(chk, results, label="trie: "):
             raise ToolError(f"TLC gave no verdict for {r['trace']} (see {r['out']})")
 
 def trie_stage(chk, mc_cfg, do, cfgs=("wa", "exp"), pars=("disabled",), splits=False, modes=("dir",), d=3, trace_cfg="TraceTrie.cfg",
-               max_trees=None, name="trie"):
+               max_trees=None, name="trie", extra=None):
     trees = export_trees(chk, mc_cfg)
     if max_trees and len(trees) > max_trees:
         rnd = random.Random(chk.seed)
@@ -76,6 +76,8 @@ def trie_stage(chk, mc_cfg, do, cfgs=("wa", "exp"), pars=("disabled",), splits=F
     for i, assign in enumerate(trees):
         b = {"id": i + 1, "cfg": cfgs[i % len(cfgs)], "stretch": stretch_for(i, chk.seed, d), "assign": assign,
              "mode": modes[i % len(modes)], "par": pars[i % len(pars)], "do": do, "cached": (i % 3 == 2)}
+        if extra:
+            b.update(extra)
         if splits and assign:
             # insert each epoch's batch as two sub-batches, second first
             rnd = random.Random(chk.seed * 7919 + i)
@@ -142,7 +144,60 @@ def c05():
                         "known finding: the empty tree (no absence proof verifies), see known_findings.jsonl"]
     return chk.finish()
 
-TABLE = {"C05": c05}
+def c09():
+    import props_dir
+    chk = Check("C09", "model_checking")
+    max_i = 1 if chk.tier == "quick" else 2
+    traces = trie_stage(chk, "MCTrie_audit3.cfg", ["tree", "auditor"], extra={"max_u": 3, "max_i": max_i})
+    tried = 0
+    accepted = 0
+    nontrivial = set()
+    for t in traces:
+        cur = None
+        for line in open(t):
+            ev = json.loads(line)
+            if ev["ev"] == "tree":
+                cur = ev
+            elif ev["ev"] == "auditor":
+                tried += ev["tried"]
+                for c in ev["cands"]:
+                    if c["start_ok"] and c["i"]:
+                        nontrivial.add((json.dumps(cur["assign"]), json.dumps(c["u"]), json.dumps(c["i"])))
+                    if c["verdict"]:
+                        accepted += 1
+                if len(chk.cov["samples"]) < 2 and len(cur["assign"]) == 3:
+                    chk.cov["samples"].append({"tree": cur["assign"], "candidates": [c for c in ev["cands"] if c["start_ok"]][:6]})
+    # the pinned (unrepaired) auditor must be refuted by TLC: guards against a vacuous adversary
+    res = run_tlc_mc("MCTrie", "MCTrie_audit3_pinned.cfg", chk.wd, workers=4, timeout=600)
+    chk.add_mc(res)
+    if not res["violation"]:
+        raise ToolError("vacuity guard: TLC did not refute the auditor without prefix-free validation")
+    # list / digest tampering at directory level
+    exported = props_dir.export_behaviours(chk, ["MCDirectory_quick.cfg"])
+    rnd = random.Random(chk.seed)
+    exported = [x for x in exported if any(st["op"] == "publish" for st in x[2])]
+    sample = rnd.sample(exported, min(len(exported), 300 if chk.tier == "quick" else 3000))
+    bs = props_dir.make_behaviours(chk, sample, ["audit", "audit_tamper"])
+    dtraces = props_dir.run_dir_harness(chk, bs, name="tamper")
+    results = validate_traces("TraceDirectory", "TraceDirectory.cfg", dtraces, chk.wd)
+    chk.handle_validation(results, label="audit tampering: ")
+    ntamper = sum(1 for t in dtraces for line in open(t) if '"ev":"audit_tamper"' in line)
+    chk.cov["candidate_proofs_tried"] = tried
+    chk.cov["accepted_candidates"] = accepted
+    chk.cov["tampered_audit_proofs"] = ntamper
+    chk.cov["distinct_nontrivial"] = len(nontrivial)
+    chk.cov["exhaustive"] = True
+    chk.cov["rule"] = ("for every depth-3 tree with <= 3 leaves (TLC-enumerated) built as a real tree: every set of <= 3 real nodes as "
+        "'unchanged' and, when that set reproduces the start hash, every set of <= %d elements over all labels of length 1..3 x 2 values as "
+        "'inserted' (shadowing, extending, duplicating and overlapping labels included) is given to the real verify_consecutive_append_only with "
+        "the end hash the auditor itself computes; TLC validates verdict = specification's, the surviving nodes of the rebuilt tree = specification's, "
+        "and accepted => every leaf committed by the start hash is committed by the end hash. Plus: every honest audit proof of sampled histories "
+        "with dropped/added hashes, proofs, epochs, shifted epochs and replaced or bit-flipped digests must be rejected by audit_verify. "
+        "Non-trivial = distinct (tree, unchanged cut, non-empty inserted set) candidates." % max_i)
+    chk.assumptions += ["hash collision resistance (symbolic hash terms)", "bounds: depth 3, <= 3 leaves, |unchanged| <= 3, |inserted| <= %d" % max_i]
+    return chk.finish()
+
+TABLE = {"C05": c05, "C09": c09}
 
 # ------------------------------------------------------------------ C17
 
